@@ -124,6 +124,74 @@ def run(ctx):
         meta.append((i, data, res))
         if len(data) >= 2:
             nontrivial.add(common.digest([i, data.hex()]))
+    # ---- scaling: time proportional to the input size -------------------------------------------
+    # the same message shape at sizes n, 4n, 16n (many array elements; one long string; a truncated
+    # copy of each).  CPU time, best of three; growth is judged between the two largest sizes.
+    scaling = {}
+    try:
+        import dataclasses as _dc
+        key = "kio.schema.metadata.v12.response:MetadataResponse"
+        ci = cl.keys.index(key)
+        C = cl.cls(ci)
+        base_obj = next(o for i, a, o in seeds if i == ci)
+        topic = None
+        for i, a, o in codec.gen_instances(cl, [ci], 6, random.Random(ctx.seed + 11), big_strings=False):
+            if o.topics:
+                topic = o.topics[0]
+                break
+        import gc
+        def cpu(fn, reps=3):
+            best = None
+            gc.collect(); gc.disable()          # the collector's own cost is not the decoder's
+            try:
+                for _ in range(reps):
+                    t0 = time.process_time(); fn(); dt = time.process_time() - t0
+                    best = dt if best is None else min(best, dt)
+            finally:
+                gc.enable()
+            return best
+        if topic is not None:
+            shapes = {
+                "array": lambda k: _dc.replace(base_obj, topics=(topic,) * k),
+                "string": lambda k: _dc.replace(base_obj, topics=(), cluster_id="x" * (40 * k)),
+            }
+            for label, mk in shapes.items():
+                times = []
+                for k in (3000, 12000, 48000):
+                    buf = io.BytesIO(); entity_writer(C)(buf, mk(k)); data = buf.getvalue()
+                    rd = entity_reader(C)
+                    t_ok = cpu(lambda: rd(io.BytesIO(data)))
+                    def cut():
+                        try:
+                            rd(io.BytesIO(data[:-1]))
+                        except Exception:  # noqa: BLE001
+                            pass
+                    t_cut = cpu(cut)
+                    times.append((len(data), t_ok, t_cut))
+                scaling[label] = [(n, round(a, 4), round(b, 4)) for n, a, b in times]
+                for which, idx in (("valid", 1), ("truncated", 2)):
+                    # growth between the two largest sizes (4× the input): ≈ 4 when linear, 16 when
+                    # quadratic, ≈ 8 when a quadratic term with a small constant (copying) has taken over
+                    mid, large = max(times[1][idx], 1e-4), times[2][idx]
+                    if large / mid > 7 and large > 0.5:
+                        # measure the pair once more, more carefully, before believing it
+                        again = []
+                        for k in (12000, 48000):
+                            buf = io.BytesIO(); entity_writer(C)(buf, mk(k)); d2 = buf.getvalue()
+                            d2 = d2 if which == "valid" else d2[:-1]
+                            def run2():
+                                try:
+                                    entity_reader(C)(io.BytesIO(d2))
+                                except Exception:  # noqa: BLE001
+                                    pass
+                            again.append(cpu(run2, reps=5))
+                        mid, large = max(again[0], 1e-4), again[1]
+                    if large / mid > 7 and large > 0.5:
+                        fails.append({"what": f"decode time grows faster than the input: {label}/{which} input of "
+                                              f"{times[2][0]} bytes takes {large:.2f}s CPU, {large / mid:.1f}× the time of "
+                                              f"{times[1][0]} bytes (4× the size)", "class": key, "bytes": ""})
+    except Exception as e:  # noqa: BLE001 - the probe needs this class and these fields; without them it is skipped
+        ctx.notes.append(f"scaling probe skipped: {type(e).__name__}: {e}")
     replies = driver.run_parallel(lines, jobs=14)
     for (i, data, res), lr in zip(meta, replies):
         if not pyside.same_outcome(res, lr):
@@ -133,7 +201,7 @@ def run(ctx):
         "rule": "case = (class, byte string): mutations of a valid encoding (overwrite/insert/delete biased to "
                 "prefixes, continuation bits, tagged section), random bytes, appended unknown tags; "
                 "non-trivial iff ≥ 2 bytes; distinct by SHA-1",
-        "classes_covered": len(idxs), "outcomes_on_code": outcome, "slow_decodes": slow,
+        "classes_covered": len(idxs), "outcomes_on_code": outcome, "slow_decodes": slow, "scaling_cpu_seconds": scaling,
         "disagreements": len(disagreements), "property_failures_on_code": len(fails),
         "samples": [{"class": cl.keys[i], "bytes": d.hex()[:120], "python": r[:100]} for i, d, r in meta[:: max(1, len(meta) // 6)][:6]],
     })
